@@ -124,9 +124,10 @@ func (p *c10Printer) seqSet(r int) []SeqRange {
 			}
 			nd := 1
 			if vsymParam("bigset") == 1 {
-				nd = 1 + vsymChoice("ndigits", 2)*8 // 1 or 9 digits (32-bit range)
+				nd = []int{1, 9, 10}[vsymChoice("ndigits", 3)] // up to the whole 32-bit range
 			}
 			n := p.nzNumber(nd)
+			vsymAssume(n <= 4294967295)
 			return SeqNum(n)
 		}
 		b := one()
@@ -236,7 +237,11 @@ func VerifC10Strings() {
 	}
 	var set []SeqRange
 	if which == 8 || which == 9 {
-		set = p.seqSet(1 + vsymChoice("setLen", 2))
+		nset := 1
+		if vsymParam("bigset") == 0 {
+			nset += vsymChoice("setLen", 2)
+		}
+		set = p.seqSet(nset)
 		p.raw(" ")
 		p.astring(a, 0)
 	}
